@@ -326,6 +326,18 @@ Section JournalProofs.
   Theorem flush_irrelevant fl1 fl2 rs : jwrite crc p fl1 rs = jwrite crc p fl2 rs.
   Proof. rewrite !(jwrite_layout crc p pok). reflexivity. Qed.
 
+  (* a record written through several Write calls gives the bytes of one Write of the whole *)
+  Theorem split_writes_irrelevant fl fl' rss :
+    jwrite_pieces crc p fl rss = jwrite crc p fl' (map (@concat N) rss).
+  Proof. rewrite (jwrite_pieces_layout crc p pok), (jwrite_layout crc p pok). reflexivity. Qed.
+
+  Theorem writer_pieces_total fl rss :
+    exists s, jwrite_pieces_res crc p fl rss = WOk s /\ w_out s = jwrite_pieces crc p fl rss.
+  Proof.
+    destruct (writer_pieces_layout crc p pok fl rss) as (s & E & Ho). exists s. split; [exact E|].
+    unfold jwrite_pieces. rewrite E. reflexivity.
+  Qed.
+
   Theorem writer_total fl rs :
     exists s, jwrite_res crc p fl rs = WOk s /\ w_out s = jwrite crc p fl rs.
   Proof.
